@@ -535,7 +535,8 @@ def run(tier, args):
                 refuted = True
                 if len(notes_refuted) < 40:
                     notes_refuted.append("%s | %s | %s" % (sig(rec), c["vclass"], c["text"]))
-                db_annot.setdefault("a64db:annot:" + rec_id(rec), []).append("%s: `%s` is encodable (LLVM: %s)" % (c["vclass"], c["text"], llvm.hex()))
+                if c["what"] != "scalar-view":   # another record of the same instruction covers that view: no annotation is wrong
+                    db_annot.setdefault("a64db:annot:" + rec_id(rec), []).append("%s: `%s` is encodable (LLVM: %s)" % (c["vclass"], c["text"], llvm.hex()))
             if c["status"] == "bad" and not refuted:
                 cnt["accepted_but_unencodable"] += 1
                 dtxt = c["dis"][0] if c["dis"] else None
